@@ -196,23 +196,27 @@ func (w *world) explainDiff(b built, plan planInfo, planName string, ref, got []
 		return ""
 	case "filter-from-related", "order-from-related":
 		r := w.tp.Rels[b.rel]
-		if (b.q.Own || b.q.OwnOrder > 0) && w.c.idxN(r.To) && act.lookup {
+		ownOrder := b.class == "filter-from-related" && b.q.OwnOrder > 0
+		if (b.q.Own || ownOrder) && w.c.idxN(r.To) && act.lookup {
 			// every by-docID lookup of a related-side document returns the first entry of the index
 			// that serves the own filter / own order: all rows are that one document
 			var first *mdoc
-			for _, t := range w.indexOrder(r.To, b.q.OwnOrder == 2) {
+			for _, t := range w.indexOrder(r.To, ownOrder && b.q.OwnOrder == 2) {
 				if !b.q.Own || holds(b.q.Op2, t.n, b.q.V2) {
 					first = t
 					break
 				}
 			}
+			same := first != nil || len(got) == 0
 			for _, g := range got {
 				id, _ := dig(g, "_docID").(string)
 				if first == nil || id != first.id {
-					return ""
+					same = false
 				}
 			}
-			return sigLookup
+			if same {
+				return sigLookup
+			}
 		}
 		// rows of documents without holder cannot be produced by the inverted join
 		dropKnown := (b.class == "order-from-related" && act.orderDrop && !plan.invertedByFilter) ||
